@@ -33,6 +33,7 @@ import (
 	"github.com/oasisprotocol/oasis-core/go/storage/database"
 	"github.com/oasisprotocol/oasis-core/go/storage/mkvs"
 	nodedb "github.com/oasisprotocol/oasis-core/go/storage/mkvs/db/api"
+	"github.com/oasisprotocol/oasis-core/go/storage/mkvs/db/pathbadger"
 	"github.com/oasisprotocol/oasis-core/go/storage/mkvs/node"
 	"github.com/oasisprotocol/oasis-core/go/storage/mkvs/writelog"
 
@@ -56,6 +57,9 @@ type Version struct {
 	// version (instead of a chain); candidate Pick (mod their number) is finalized.
 	Fork bool `json:"fork,omitempty"`
 	Pick int  `json:"pick,omitempty"`
+	// Parents (fork versions): where candidate j starts: 0 = the root the version starts from,
+	// i > 0 = candidate i-1 of this same version (committed earlier). Missing = all 0.
+	Parents []int `json:"parents,omitempty"`
 }
 
 type Scenario struct {
@@ -257,7 +261,14 @@ type attempt struct {
 	dstVer  uint64
 	dstHash hash.Hash
 	dstKV   []kv // contents the destination hash stands for (model side)
+	// a start root other than the pair's (missing-start attempts)
+	otherSrc bool
+	srcHash  hash.Hash
+	srcKV    []kv
 }
+
+// lightMode: only the served log is applied on the second database (pathbadger log stream)
+var lightMode bool
 
 var keyPool = [][]byte{
 	[]byte("a"), []byte("ab"), []byte("abc"), []byte("abd"), []byte("ac"), []byte("b"), []byte("ba"),
@@ -362,6 +373,19 @@ func corruptions(r *prng.R, served []entry, old, new []kv, srcVer, dstVer uint64
 		out = append(out, attempt{kind: "wrong-expected-other", wl: clone(), dstVer: dstVer, dstHash: hashOf(other), dstKV: other})
 		sum("wrong-expected-other")
 	}
+	// a start root the applying database does not hold (contents of the real one plus a binding)
+	if r.Chance(60) {
+		ghost := applyRef(old, []entry{{k: []byte("zzzy"), v: []byte("g")}})
+		wl := clone()
+		kind := "missing-start"
+		if r.Chance(35) {
+			wl = []entry{}
+			kind = "missing-start-empty-log"
+		}
+		out = append(out, attempt{kind: kind, wl: wl, dstVer: dstVer, dstHash: dstHash, dstKV: new,
+			otherSrc: true, srcHash: hashOf(ghost), srcKV: ghost})
+		sum(kind)
+	}
 	// announced root that does not follow the start root
 	if r.Chance(50) {
 		out = append(out, attempt{kind: "no-follow", wl: clone(), dstVer: srcVer + 2, dstHash: dstHash, dstKV: new})
@@ -389,7 +413,7 @@ func corruptions(r *prng.R, served []entry, old, new []kv, srcVer, dstVer uint64
 	var bad, good []attempt
 	for _, a := range out {
 		follows := a.dstVer == srcVer || a.dstVer == srcVer+1
-		if !follows || !kvEqual(applyRef(old, a.wl), a.dstKV) {
+		if a.otherSrc || !follows || !kvEqual(applyRef(old, a.wl), a.dstKV) {
 			bad = append(bad, a)
 		} else {
 			good = append(good, a)
@@ -416,6 +440,7 @@ func hashOf(m []kv) hash.Hash {
 }
 
 type pairResult struct {
+	pb      bool // a case of the pathbadger internal-log stream
 	coq     string
 	desc    map[string]any
 	nontriv bool
@@ -427,6 +452,7 @@ type finding struct {
 }
 
 const keyEmbeddedLeaf = "C13:pathbadger-unservable-log-after-same-value-insert-of-embedded-leaf"
+const keyTwoHopReversed = "C13:badger-two-hop-write-log-served-newest-hop-first"
 
 type runResult struct {
 	findings   []finding
@@ -485,18 +511,22 @@ func runScenario(sc Scenario) (res runResult) {
 	pairIdx := 0
 	type qres struct {
 		status string // served | refused | error
-		log    []entry
+		log    []entry // sorted by key
+		raw    []entry // in the order served
 		err    error
 	}
 	type cand struct {
 		start, end storedRoot
 		ops        []Op
 		committed  []entry // what Tree.Commit returned, sorted by key
+		clog       []entry // the same in the order Commit returned it
 		seq        int     // batches opened before this one for the same (version, type) in the first database
-		skip       bool    // same root as the parent or as an earlier candidate
+		skip       bool    // the end root is the start root itself
+		sOnly      bool    // judged by the oracle only (same root stored twice; see below)
 		oldKV      []kv
 		newKV      []kv
 		idx        int
+		fin2       string // Coq: last finalized version of the second database
 		queries    []string // Coq: (backend, seq, fstate)
 		served     []string // Coq: option log
 		coqAtt     []string
@@ -514,7 +544,7 @@ func runScenario(sc Scenario) (res runResult) {
 		}
 		switch {
 		case err == nil:
-			return qres{status: "served", log: sortLog(log)}
+			return qres{status: "served", log: sortLog(log), raw: log}
 		case errors.Is(err, nodedb.ErrWriteLogNotFound) || errors.Is(err, nodedb.ErrRootNotFound):
 			return qres{status: "refused", err: err}
 		}
@@ -523,28 +553,48 @@ func runScenario(sc Scenario) (res runResult) {
 	// judge one answer of the database (S) and record it for the model (K)
 	judge := func(p *cand, q qres, fstate string) {
 		p.queries = append(p.queries, fmt.Sprintf("(%s, %d, %s)", coqBackend, p.seq, fstate))
-		res.hist["served:"+fstate+":"+q.status]++
+		tag := ""
+		if p.sOnly {
+			tag = "same-root:"
+		}
+		res.hist["served:"+tag+fstate+":"+q.status]++
 		switch q.status {
 		case "served":
 			p.served = append(p.served, "(Some "+coqLog(q.log)+")")
 			seenKey := map[string]bool{}
 			for _, e := range q.log {
-				if seenKey[string(e.k)] {
+				// (when the same root was committed twice badger may answer with the two-hop
+				// concatenation through the other parent, badger.go:363-372: keys repeat)
+				if seenKey[string(e.k)] && !p.sOnly {
 					viol("pair %d (%s): served write log has key %x twice", p.idx, fstate, e.k)
 				}
 				seenKey[string(e.k)] = true
 			}
 			if got := applyRef(p.oldKV, q.log); !kvEqual(got, p.newKV) {
-				viol("pair %d (%s): served write log applied to the start contents does not give the end contents", p.idx, fstate)
-			} else if !logEqual(q.log, p.committed) {
+				what := fmt.Sprintf("pair %d (%s): served write log applied to the start contents does not give the end contents", p.idx, fstate)
+				// recognised defect: badger answers a pair whose own log was not stored (the root
+				// already existed) with the two-hop path through the other parent, and streams the
+				// hops newest first (badger.go:419-437 collects the log keys walking from the end
+				// root and replays them from index 0)
+				rev := append([]entry{}, q.raw...)
+				for i, j := 0, len(rev)-1; i < j; i, j = i+1, j-1 {
+					rev[i], rev[j] = rev[j], rev[i]
+				}
+				if sc.Backend == "badger" && p.sOnly && kvEqual(applyRef(p.oldKV, rev), p.newKV) {
+					res.findings = append(res.findings, finding{keyTwoHopReversed, what})
+				} else {
+					viol("%s", what)
+				}
+			} else if !p.sOnly && !logEqual(q.log, p.committed) {
 				viol("pair %d (%s): the served write log differs from the one Commit returned", p.idx, fstate)
 			}
 		case "refused":
 			p.served = append(p.served, "None")
 			// refusal is allowed only where the code documents it: nil logs are not stored; pathbadger
 			// does not serve pending roots with a non-zero sequence number; roots that lost
-			// finalization are removed
-			allowed := len(p.committed) == 0 || fstate == "FinalizedOther" ||
+			// finalization are removed; committing a root that is already stored stores nothing
+			// ("Root already exists, no need to do anything", badger.go:1055-1063)
+			allowed := len(p.committed) == 0 || fstate == "FinalizedOther" || p.sOnly ||
 				(fstate == "Pending" && sc.Backend == "pathbadger" && p.seq != 0)
 			if !allowed {
 				viol("pair %d (%s): no write log served for a stored pair of consecutive roots: %v", p.idx, fstate, q.err)
@@ -570,6 +620,61 @@ func runScenario(sc Scenario) (res runResult) {
 			p.emit = false // no observation the model could be compared with
 		}
 	}
+	fin2 := "None" // last finalized version of the second database, as a Coq term
+	// one Apply on the second database, judged (S) and recorded (K)
+	attemptOn := func(p *cand, ai int, a attempt) {
+		startRoot := mkRoot(p.start.ver, p.start.hash)
+		srcKV := p.oldKV
+		if a.otherSrc {
+			startRoot = mkRoot(p.start.ver, a.srcHash)
+			srcKV = a.srcKV
+		}
+		dst := mkRoot(a.dstVer, a.dstHash)
+		hadBefore := ndb2.HasRoot(dst)
+		err := b2.impl.Apply(ctx, &api.ApplyRequest{
+			Namespace: testNs, RootType: rootType,
+			SrcRound: startRoot.Version, SrcRoot: startRoot.Hash,
+			DstRound: a.dstVer, DstRoot: a.dstHash,
+			WriteLog: toAPILog(a.wl),
+		})
+		cls := applyClass(err)
+		has := ndb2.HasRoot(dst)
+		res.hist["result:"+a.kind+":"+cls]++
+		if cls == "AOther" {
+			res.hist["other-error:"+a.kind+": "+err.Error()]++
+		}
+		p.coqAtt = append(p.coqAtt, fmt.Sprintf("mkAttempt %s %s %s", coqRoot(startRoot.Version, srcKV), coqRoot(a.dstVer, a.dstKV), coqLog(a.wl)))
+		p.coqRes = append(p.coqRes, fmt.Sprintf("(%s, %s)", cls, coqout.Bool(has)))
+
+		// S: the property, judged on maps only
+		follows := a.dstVer == startRoot.Version || a.dstVer == startRoot.Version+1
+		good := !a.otherSrc && a.kind != "finalized-version" && kvEqual(applyRef(p.oldKV, a.wl), a.dstKV)
+		switch {
+		case err == nil && !has:
+			viol("pair %d attempt %d (%s): Apply succeeded but the expected root is not stored", p.idx, ai, a.kind)
+		case err == nil && follows && !hadBefore && !good:
+			viol("pair %d attempt %d (%s): an Apply that must not store the expected root was accepted and the root is now stored", p.idx, ai, a.kind)
+		case err != nil && follows && !hadBefore && has:
+			viol("pair %d attempt %d (%s): Apply failed (%v) but the expected root appeared in the database", p.idx, ai, a.kind, err)
+		case err != nil && follows && good:
+			viol("pair %d attempt %d (%s): a log that produces exactly the announced contents was rejected: %v", p.idx, ai, a.kind, err)
+		}
+		if err == nil && has {
+			got, rerr := readContents(ctx, ndb2, dst)
+			if rerr != nil {
+				viol("pair %d attempt %d (%s): stored root unreadable: %v", p.idx, ai, a.kind, rerr)
+			} else if !kvEqual(got, a.dstKV) {
+				viol("pair %d attempt %d (%s): the root stored after Apply has other contents than announced", p.idx, ai, a.kind)
+			}
+		}
+	}
+	db2coqNow := func() []string {
+		var out []string
+		for _, sr := range db2roots {
+			out = append(out, fmt.Sprintf("(%s, %s)", coqRoot(sr.ver, sr.kvs), coqKVs(sr.kvs)))
+		}
+		return out
+	}
 	// Apply attempts on the second database for one pair; returns false when it cannot follow
 	follow := func(p *cand, served []entry) bool {
 		startRoot, endRoot := mkRoot(p.start.ver, p.start.hash), mkRoot(p.end.ver, p.end.hash)
@@ -577,49 +682,13 @@ func runScenario(sc Scenario) (res runResult) {
 		r := prng.New(sc.Seed*1000003 + uint64(p.idx))
 		atts := corruptions(r, served, p.oldKV, p.newKV, startRoot.Version, endRoot.Version, startRoot.Hash, endRoot.Hash,
 			func(k string) { res.hist["attempt:"+k]++ })
-		for _, sr := range db2roots {
-			p.db2coq = append(p.db2coq, fmt.Sprintf("(%s, %s)", coqRoot(sr.ver, sr.kvs), coqKVs(sr.kvs)))
+		if lightMode {
+			atts = atts[len(atts)-1:]
 		}
+		p.db2coq = db2coqNow()
+		p.fin2 = fin2
 		for ai, a := range atts {
-			dst := mkRoot(a.dstVer, a.dstHash)
-			hadBefore := ndb2.HasRoot(dst)
-			err := b2.impl.Apply(ctx, &api.ApplyRequest{
-				Namespace: testNs, RootType: rootType,
-				SrcRound: startRoot.Version, SrcRoot: startRoot.Hash,
-				DstRound: a.dstVer, DstRoot: a.dstHash,
-				WriteLog: toAPILog(a.wl),
-			})
-			cls := applyClass(err)
-			has := ndb2.HasRoot(dst)
-			res.hist["result:"+a.kind+":"+cls]++
-			if cls == "AOther" {
-				res.hist["other-error:"+err.Error()]++
-			}
-			p.coqAtt = append(p.coqAtt, fmt.Sprintf("mkAttempt %s %s %s", coqRoot(startRoot.Version, p.oldKV), coqRoot(a.dstVer, a.dstKV), coqLog(a.wl)))
-			p.coqRes = append(p.coqRes, fmt.Sprintf("(%s, %s)", cls, coqout.Bool(has)))
-
-			// S: the property, judged on maps only
-			follows := a.dstVer == startRoot.Version || a.dstVer == startRoot.Version+1
-			result := applyRef(p.oldKV, a.wl)
-			good := kvEqual(result, a.dstKV)
-			switch {
-			case err == nil && !has:
-				viol("pair %d attempt %d (%s): Apply succeeded but the expected root is not stored", p.idx, ai, a.kind)
-			case err == nil && follows && !hadBefore && !good:
-				viol("pair %d attempt %d (%s): a log whose result differs from the announced contents was accepted and the expected root is now stored", p.idx, ai, a.kind)
-			case err != nil && follows && !hadBefore && has:
-				viol("pair %d attempt %d (%s): Apply failed (%v) but the expected root appeared in the database", p.idx, ai, a.kind, err)
-			case err != nil && follows && good:
-				viol("pair %d attempt %d (%s): a log that produces exactly the announced contents was rejected: %v", p.idx, ai, a.kind, err)
-			}
-			if err == nil && has {
-				got, rerr := readContents(ctx, ndb2, dst)
-				if rerr != nil {
-					viol("pair %d attempt %d (%s): stored root unreadable: %v", p.idx, ai, a.kind, rerr)
-				} else if !kvEqual(got, a.dstKV) {
-					viol("pair %d attempt %d (%s): the root stored after Apply has other contents than announced", p.idx, ai, a.kind)
-				}
-			}
+			attemptOn(p, ai, a)
 		}
 		if !ndb2.HasRoot(endRoot) {
 			viol("pair %d: the served write log did not take the second database to the end root", p.idx)
@@ -627,14 +696,15 @@ func runScenario(sc Scenario) (res runResult) {
 		}
 		p.applied = true
 		db2roots = append(db2roots, storedRoot{ver: endRoot.Version, kvs: p.newKV, hash: endRoot.Hash})
-		if len(db2roots) > 8 {
-			db2roots = db2roots[len(db2roots)-8:]
-		}
 		return true
 	}
 	// keep the second database following with the log Commit returned (no observation recorded)
 	followSilently := func(p *cand) bool {
 		startRoot, endRoot := mkRoot(p.start.ver, p.start.hash), mkRoot(p.end.ver, p.end.hash)
+		if ndb2.HasRoot(endRoot) {
+			p.applied = true
+			return true
+		}
 		if aerr := b2.impl.Apply(ctx, &api.ApplyRequest{Namespace: testNs, RootType: rootType,
 			SrcRound: startRoot.Version, SrcRoot: startRoot.Hash, DstRound: endRoot.Version, DstRoot: endRoot.Hash,
 			WriteLog: toAPILog(p.committed)}); aerr != nil {
@@ -645,16 +715,91 @@ func runScenario(sc Scenario) (res runResult) {
 		db2roots = append(db2roots, storedRoot{ver: endRoot.Version, kvs: p.newKV, hash: endRoot.Hash})
 		return true
 	}
+	emitCase := func(p *cand) {
+		term := fmt.Sprintf("(let o : kvmap := %s in let n : kvmap := %s in\n (mkCase o %s %s %s %s %s %s,\n  mkObs %s %s n true %s))",
+			coqKVs(p.oldKV), coqKVs(p.newKV), coqOps(p.ops), coqout.List(p.db2coq), coqout.Bool(sc.Backend2 == "pathbadger"), p.fin2, coqout.List(p.coqAtt), coqout.List(p.queries),
+			coqLog(p.committed), coqout.List(p.served), coqout.List(p.coqRes))
+		res.pairs = append(res.pairs, pairResult{coq: term, desc: map[string]any{"case": sc, "pair": p.idx},
+			nontriv: len(p.committed) >= 2, key: coqKVs(p.oldKV) + coqOps(p.ops)})
+	}
+	// pathbadger: the stored internal log and the nodes it references, against PathLog.v
+	emitPb := func(p *cand, q qres) {
+		il, err := pathbadger.VerifInternalWriteLog(ndb1, mkRoot(p.start.ver, p.start.hash), mkRoot(p.end.ver, p.end.hash))
+		if err != nil {
+			viol("pair %d: stored internal write log unreadable: %v", p.idx, err)
+			return
+		}
+		coqNode := func(n pathbadger.VerifStoredNode) string {
+			switch {
+			case !n.Internal:
+				return fmt.Sprintf("(SLeaf %s %s)", coqout.Bytes(n.LeafKey), coqout.Bytes(n.LeafValue))
+			case n.HasLeaf:
+				return fmt.Sprintf("(SInternal (Some (%s, %s)))", coqout.Bytes(n.LeafKey), coqout.Bytes(n.LeafValue))
+			}
+			return "(SInternal None)"
+		}
+		var raw, store, shape, invalid []string
+		for _, e := range il.Entries {
+			switch e.Kind {
+			case 0x01:
+				raw = append(raw, fmt.Sprintf("IInsert (%d, %d)", e.Version, e.Index))
+				if e.Node.Found {
+					store = append(store, fmt.Sprintf("((%d, %d), %s)", e.Version, e.Index, coqNode(e.Node)))
+				}
+				shape = append(shape, "None")
+				inv := e.Version == ^uint64(0) && e.Index == ^uint32(0)
+				invalid = append(invalid, coqout.Bool(inv))
+				if inv {
+					res.hist["pblog:insert-invalid-pointer"]++
+				} else if e.Version == p.end.ver {
+					res.hist["pblog:insert-new-position"]++
+				} else {
+					res.hist["pblog:insert-old-position"]++
+				}
+			case 0x02:
+				raw = append(raw, "IDelete "+coqout.Bytes(e.Key))
+				shape = append(shape, "(Some "+coqout.Bytes(e.Key)+")")
+				invalid = append(invalid, "false")
+				res.hist["pblog:delete"]++
+			default:
+				raw = append(raw, "IBad")
+				shape = append(shape, "None")
+				invalid = append(invalid, "false")
+			}
+		}
+		rootNode := "None"
+		if il.RootNode.Found {
+			rootNode = "(Some " + coqNode(il.RootNode) + ")"
+		}
+		servedTerm := "None"
+		if q.status == "served" {
+			servedTerm = "(Some " + coqLog(q.raw) + ")"
+		}
+		term := fmt.Sprintf("(mkPb %s %s %s %s %s %s %d,\n  mkPbObs %s %s %s)",
+			coqKVs(p.oldKV), coqOps(p.ops), coqLog(p.clog), coqout.List(raw), coqout.List(store), rootNode, p.end.ver,
+			coqout.List(shape), coqout.List(invalid), servedTerm)
+		res.pairs = append(res.pairs, pairResult{pb: true, coq: term, desc: map[string]any{"case": sc, "pair": p.idx},
+			nontriv: len(p.committed) >= 2, key: coqKVs(p.oldKV) + coqOps(p.ops)})
+	}
 
 	for vi, ver := range sc.Versions {
 		version := uint64(vi + 1)
-		start := prev
+		vstart := prev
 		if sc.Type == "io" {
 			// IO trees are rebuilt from the empty root in every version
-			start = storedRoot{ver: version, hash: emptyHash}
+			vstart = storedRoot{ver: version, hash: emptyHash}
 		}
 		var cands []*cand
+		parentOf := make([]int, len(ver.Batches)) // -1 = the version's start root, else candidate index
 		for bi, ops := range ver.Batches {
+			start := vstart
+			parentOf[bi] = -1
+			switch {
+			case !ver.Fork && bi > 0:
+				start, parentOf[bi] = cands[bi-1].end, bi-1 // chain inside the version (IO: empty -> i -> io)
+			case ver.Fork && bi < len(ver.Parents) && ver.Parents[bi] > 0 && ver.Parents[bi] <= bi:
+				start, parentOf[bi] = cands[ver.Parents[bi]-1].end, ver.Parents[bi]-1
+			}
 			startRoot := mkRoot(start.ver, start.hash)
 			t := mkvs.NewWithRoot(nil, ndb1, startRoot)
 			for _, o := range ops {
@@ -681,32 +826,50 @@ func runScenario(sc Scenario) (res runResult) {
 				committed = append(committed, entry{k: e.Key, v: e.Value, del: e.Value == nil})
 			}
 			pairIdx++
-			p := &cand{start: start, end: end, ops: ops, committed: sortLog(committed), seq: bi, idx: pairIdx, emit: true}
+			p := &cand{start: start, end: end, ops: ops, committed: sortLog(committed), clog: committed, seq: bi, idx: pairIdx, emit: true}
 			if start.ver == end.ver && start.hash.Equal(&end.hash) {
 				p.skip = true
-			}
-			for _, q := range cands {
-				if q.end.hash.Equal(&end.hash) {
-					p.skip = true // the same root again: nothing new is stored for it
-				}
-			}
-			if p.skip {
 				res.hist["pair:skipped-same-root"]++
 			}
-			cands = append(cands, p)
-			if !ver.Fork {
-				start = end // chain inside the version (IO: empty -> i -> io)
+			for _, q := range cands {
+				if q.end.hash.Equal(&end.hash) && !p.skip {
+					// The same root stored a second time.  The second commit stores nothing
+					// (badger.go:1055-1063), so the pair may be unservable or be served with the
+					// first batch's log: judged by "served => correct" only.
+					p.sOnly, q.sOnly = true, true
+				}
 			}
+			cands = append(cands, p)
 		}
 		pick := len(cands) - 1
 		if ver.Fork {
 			pick = ver.Pick % len(cands)
 			res.hist[fmt.Sprintf("forks:%d", len(cands))]++
 		}
+		// finalization is transitive along the derivation links the database stored, and a link
+		// is stored only by the FIRST commit of a root (badger.go:1055-1063, 1087-1101)
+		firstOf := map[hash.Hash]int{}
+		for i, p := range cands {
+			if _, ok := firstOf[p.end.hash]; !ok && !p.skip {
+				firstOf[p.end.hash] = i
+			}
+		}
+		finalizedHash := map[hash.Hash]bool{}
+		for i, ok := firstOf[cands[pick].end.hash]; ok && i >= 0; {
+			finalizedHash[cands[i].end.hash] = true
+			if parentOf[i] < 0 {
+				break
+			}
+			i, ok = firstOf[cands[parentOf[i]].end.hash]
+		}
+		finalizedHash[cands[pick].end.hash] = true
 		// contents, read back through the real tree before anything is discarded
 		for _, p := range cands {
 			if p.skip {
 				continue
+			}
+			if p.sOnly {
+				res.hist["pair:same-root-twice"]++
 			}
 			var err error
 			if p.oldKV, err = readContents(ctx, ndb1, mkRoot(p.start.ver, p.start.hash)); err != nil {
@@ -731,13 +894,16 @@ func runScenario(sc Scenario) (res runResult) {
 		}
 		// competing candidates: ask for every one of them before finalization
 		if ver.Fork {
-			for _, p := range cands {
+			for i, p := range cands {
 				if p.skip {
 					continue
 				}
+				if parentOf[i] >= 0 {
+					res.hist["pair:child-of-candidate"]++
+				}
 				q := query(mkRoot(p.start.ver, p.start.hash), mkRoot(p.end.ver, p.end.hash))
 				judge(p, q, "Pending")
-				if q.status == "served" {
+				if q.status == "served" && !p.sOnly && ndb2.HasRoot(mkRoot(p.start.ver, p.start.hash)) {
 					if !follow(p, q.log) {
 						return res
 					}
@@ -748,19 +914,25 @@ func runScenario(sc Scenario) (res runResult) {
 		if err := ndb1.Finalize(fin); err != nil {
 			panic(fmt.Errorf("finalize db1: %w", err))
 		}
-		for i, p := range cands {
+		for _, p := range cands {
 			if p.skip {
 				continue
 			}
 			fstate := "FinalizedThis"
-			if ver.Fork && !p.end.hash.Equal(&cands[pick].end.hash) {
+			if !finalizedHash[p.end.hash] {
 				fstate = "FinalizedOther"
 			}
 			q := query(mkRoot(p.start.ver, p.start.hash), mkRoot(p.end.ver, p.end.hash))
 			judge(p, q, fstate)
-			needed := !ver.Fork || i == pick
-			if needed && !p.applied {
+			if sc.Backend == "pathbadger" && fstate == "FinalizedThis" && !p.sOnly && len(p.committed) > 0 && q.status != "refused" {
+				emitPb(p, q)
+			}
+			if finalizedHash[p.end.hash] && !p.applied && !ndb2.HasRoot(mkRoot(p.end.ver, p.end.hash)) {
 				switch {
+				case p.sOnly:
+					if !followSilently(p) {
+						return res
+					}
 				case q.status == "served":
 					if !follow(p, q.log) {
 						return res
@@ -777,14 +949,13 @@ func runScenario(sc Scenario) (res runResult) {
 			}
 		}
 		for _, p := range cands {
-			if p.skip || !p.emit {
+			if p.skip || !p.emit || p.sOnly {
 				continue
 			}
-			term := fmt.Sprintf("(let o : kvmap := %s in let n : kvmap := %s in\n (mkCase o %s %s %s %s,\n  mkObs %s %s n true %s))",
-				coqKVs(p.oldKV), coqKVs(p.newKV), coqOps(p.ops), coqout.List(p.db2coq), coqout.List(p.coqAtt), coqout.List(p.queries),
-				coqLog(p.committed), coqout.List(p.served), coqout.List(p.coqRes))
-			res.pairs = append(res.pairs, pairResult{coq: term, desc: map[string]any{"case": sc, "pair": p.idx},
-				nontriv: len(p.committed) >= 2, key: coqKVs(p.oldKV) + coqOps(p.ops)})
+			if p.fin2 == "" {
+				p.fin2 = fin2
+			}
+			emitCase(p)
 		}
 		if !ndb2.HasRoot(fin[0]) {
 			viol("version %d: the second database does not hold the finalized root", version)
@@ -792,6 +963,32 @@ func runScenario(sc Scenario) (res runResult) {
 		}
 		if err := ndb2.Finalize(fin); err != nil {
 			panic(fmt.Errorf("finalize db2: %w", err))
+		}
+		fin2 = fmt.Sprintf("(Some %d)", version)
+		// roots of this version that lost finalization are gone from the second database
+		var kept []storedRoot
+		for _, sr := range db2roots {
+			if sr.ver != version || finalizedHash[sr.hash] {
+				kept = append(kept, sr)
+			}
+		}
+		if len(kept) > 8 {
+			kept = kept[len(kept)-8:]
+		}
+		db2roots = kept
+		// a candidate that lost: its (correct) log can no longer be applied, the version is closed
+		for _, p := range cands {
+			if p.skip || p.sOnly || finalizedHash[p.end.hash] || parentOf[p.seq] >= 0 || lightMode {
+				continue
+			}
+			if ndb2.HasRoot(mkRoot(p.start.ver, p.start.hash)) {
+				late := &cand{start: p.start, end: p.end, ops: p.ops, committed: p.committed, oldKV: p.oldKV, newKV: p.newKV,
+					idx: p.idx, fin2: fin2, db2coq: db2coqNow()}
+				res.hist["attempt:finalized-version"]++
+				attemptOn(late, 0, attempt{kind: "finalized-version", wl: p.committed, dstVer: p.end.ver, dstHash: p.end.hash, dstKV: p.newKV})
+				emitCase(late)
+			}
+			break
 		}
 		prev = cands[pick].end
 	}
@@ -922,28 +1119,82 @@ func genScenario(r *prng.R, idx int, count func(string)) Scenario {
 			n := r.Range(2, 3)
 			ver := Version{Fork: true, Pick: r.Intn(n)}
 			var maps []map[string][]byte
+			simulate := func(m map[string][]byte, ops []Op) {
+				for _, o := range ops {
+					k, _ := hex.DecodeString(o.Key)
+					if o.K == "ins" {
+						v, _ := hex.DecodeString(o.Val)
+						m[string(k)] = v
+					} else {
+						delete(m, string(k))
+					}
+				}
+			}
+			// pathbadger refuses children of IO roots and "child roots in the same version"
+			// (pathbadger.go:683-695): candidates built on another candidate exist only on badger
+			childOK := sc.Type == "state" && sc.Backend == "badger" && sc.Backend2 == "badger"
+			if n == 3 && childOK && r.Chance(20) {
+				// diamond: the same root reached from two different parents inside the version:
+				// P -X-> A, A -Z-> R and P -X;Z-> R (in either order)
+				count("fork-diamond")
+				mx := cp(cur)
+				x := genBatch(r, mx, count)
+				mxz := cp(mx)
+				z := genBatch(r, mxz, count)
+				xz := append(append([]Op{}, x...), z...)
+				if r.Chance(50) {
+					ver.Batches, ver.Parents = [][]Op{x, z, xz}, []int{0, 1, 0}
+				} else {
+					ver.Batches, ver.Parents = [][]Op{x, xz, z}, []int{0, 0, 1}
+				}
+				maps = []map[string][]byte{mx, mxz, mxz}
+				if ver.Parents[1] == 0 {
+					maps = []map[string][]byte{mx, mxz, mxz}
+				}
+				cur = maps[ver.Pick]
+				sc.Versions = append(sc.Versions, ver)
+				continue
+			}
 			for j := 0; j < n; j++ {
 				m := cp(cur)
 				var ops []Op
-				if j > 0 && r.Chance(50) {
+				parent := 0
+				x := r.Intn(100)
+				switch {
+				case j > 0 && x < 35:
 					// same shape as the first candidate, other values
 					count("fork-value-variant")
 					for _, o := range ver.Batches[0] {
-						k, _ := hex.DecodeString(o.Key)
 						if o.K == "ins" {
 							v0, _ := hex.DecodeString(o.Val)
-							nv := otherVal(r, v0)
-							ops = append(ops, Op{K: "ins", Key: o.Key, Val: hx(nv)})
-							m[string(k)] = nv
+							ops = append(ops, Op{K: "ins", Key: o.Key, Val: hx(otherVal(r, v0))})
 						} else {
 							ops = append(ops, o)
-							delete(m, string(k))
 						}
 					}
-				} else {
+					simulate(m, ops)
+				case j > 0 && x < 50:
+					// the same root a second time: the first candidate's batch plus operations without effect
+					count("fork-same-root")
+					ops = append(ops, ver.Batches[0]...)
+					if len(ver.Parents) > 0 && ver.Parents[0] != 0 {
+						parent = ver.Parents[0]
+					}
+					if r.Chance(60) {
+						ops = append(ops, Op{K: "ins", Key: hx([]byte("zq")), Val: hx([]byte("x"))}, Op{K: "rem", Key: hx([]byte("zq"))})
+					}
+					simulate(m, ops)
+				case j > 0 && x < 70 && childOK:
+					// built on the previous candidate of this same version (a different parent)
+					count("fork-child-of-candidate")
+					parent = j
+					m = cp(maps[j-1])
+					ops = genBatch(r, m, count)
+				default:
 					ops = genBatch(r, m, count)
 				}
 				ver.Batches = append(ver.Batches, ops)
+				ver.Parents = append(ver.Parents, parent)
 				maps = append(maps, m)
 			}
 			cur = maps[ver.Pick]
@@ -1067,6 +1318,7 @@ func main() {
 	n := flag.Int("cases", 40, "number of generated scenarios")
 	out := flag.String("out", "", "output directory")
 	replay := flag.String("replay", "", "replay a case description (JSON file)")
+	mode := flag.String("mode", "sync", "sync: write log / Apply cases; pblog: pathbadger internal write log cases")
 	flag.Parse()
 	if *out == "" {
 		fmt.Fprintln(os.Stderr, "need -out")
@@ -1074,6 +1326,11 @@ func main() {
 	}
 	hdr := "From Verif Require Import Lib.Base WriteLog.Model.\n"
 	wb := coqout.NewWriter(*out, hdr, "run_case", "wobs_eqb", 10)
+	if *mode == "pblog" {
+		lightMode = true
+		hdr = "From Verif Require Import Lib.Base WriteLog.Model WriteLog.PathLog.\n"
+		wb = coqout.NewWriter(*out, hdr, "run_pbcase", "pbobs_eqb", 25)
+	}
 	sum := coqout.NewSummary("scenarios = 3-7 versions (40% of them with 2-3 competing candidate roots from the same parent, half of the extra candidates value-variants of the first, queried before and after finalizing a random one; the rest linear) over two real storage backends (badger/pathbadger in all four combinations; state roots chained across versions, IO roots rebuilt from the empty root with 1-2 hops per version); batches of 0-7 pattern instances (insert, overwrite same/other value, remove present/absent, remove-then-reinsert, insert-then-remove, empty value, repeated remove) over 16 keys with shared prefixes and 5 values incl. empty and 40 bytes; every pair of consecutive roots is one evaluation with 4-11 Apply attempts (corrupted logs first, the served log last); non-trivial = served log has >= 2 entries; distinct = distinct (start contents, batch) among those")
 	var scs []Scenario
 	if *replay != "" {
@@ -1099,7 +1356,21 @@ func main() {
 	} else {
 		r := prng.New(*seed)
 		for i := 0; i < *n; i++ {
-			scs = append(scs, genScenario(r.Fork(), i, func(k string) { sum.Count("pattern", k) }))
+			sc := genScenario(r.Fork(), i, func(k string) { sum.Count("pattern", k) })
+			if *mode == "pblog" {
+				sc.Backend = "pathbadger"
+				for vi := range sc.Versions {
+					sc.Versions[vi].Parents = nil // pathbadger has no child roots inside a version
+				}
+				if sc.Type == "io" {
+					for vi := range sc.Versions {
+						if !sc.Versions[vi].Fork && len(sc.Versions[vi].Batches) > 1 {
+							sc.Versions[vi].Batches = sc.Versions[vi].Batches[:1]
+						}
+					}
+				}
+			}
+			scs = append(scs, sc)
 		}
 	}
 	seen := map[string]bool{}
@@ -1114,6 +1385,9 @@ func main() {
 			}
 		}
 		for _, p := range res.pairs {
+			if p.pb != (*mode == "pblog") {
+				continue
+			}
 			sum.Evaluations++
 			wb.Add(p.coq, p.desc)
 			if p.nontriv && !seen[p.key] {
@@ -1122,14 +1396,18 @@ func main() {
 			}
 		}
 		sum.Sample(sc, 2)
+		seenKeys := map[string]bool{}
 		for _, f := range res.findings {
+			if seenKeys[f.key] {
+				continue
+			}
+			seenKeys[f.key] = true
 			small := sc
 			if shrunk < 3 {
 				shrunk++
 				small = shrinkFinding(sc, f.key)
 			}
 			sum.Findings = append(sum.Findings, coqout.Finding{Key: f.key, What: f.what, Replay: map[string]any{"case": small}})
-			break
 		}
 		if len(res.violations) > 0 {
 			kind := violKind(res.violations[0])
